@@ -1169,14 +1169,19 @@ def flushbit(ctx: Any) -> List[Ob]:
         res = []
         for c in node.calls():
             if call_name(c) == 'write_short' and c.args:
+                # by value: the entry's class is 1 (IN); what is written is 1 or 1 | 0x8000, through whatever local carries it
                 a = c.args[0]
-                bit = any(isinstance(x, ast.BinOp) and isinstance(x.op, ast.BitOr) and any(prog.try_fold(f.module, s) == (True, 0x8000) for s in (x.left, x.right)) for x in ast.walk(a))
-                res.append('CLASS|0x8000' if bit else 'CLASS')
+                v = evl.ev(a)
+                if isinstance(v, int) and not isinstance(v, bool) and v in (1, 0x8001):
+                    res.append('CLASS|0x8000' if v == 0x8001 else 'CLASS')
+                else:
+                    bit = any(isinstance(x, ast.BinOp) and isinstance(x.op, ast.BitOr) and any(prog.try_fold(f.module, s) == (True, 0x8000) for s in (x.left, x.right)) for x in ast.walk(a))
+                    res.append('CLASS|0x8000' if bit else 'CLASS')
         return res
 
     for uniq in (True, False):
         for mc in (True, False):
-            oc, und = traces(ctx, f, {f'{rec}.unique': uniq, f'{me}.multicast': mc}, eff)
+            oc, und = traces(ctx, f, {f'{rec}.unique': uniq, f'{me}.multicast': mc, f'{rec}.class_': 1}, eff)
             got = {strip_ret(t) for t in oc}
             want = ('CLASS|0x8000',) if (uniq and mc) else ('CLASS',)
             obs.append(ob(R, f, f'unique={uniq} multicast={mc}', f'writes {want[0]}', got == {want} and not und, f'got {sorted(got)}'))
